@@ -190,13 +190,6 @@ func flight4Parse(
 		cfg.WriteKeyLog(keyLogLabel, clientRandom[:], state.MasterSecret)
 	}
 
-	if len(state.SessionID) > 0 {
-		cfg.Log.Tracef("[handshake] save new session: %x", state.SessionID)
-		if err := cfg.SetSession(state.SessionID, state.SessionID, state.MasterSecret); err != nil {
-			return 0, &alert.Alert{Level: alert.Fatal, Description: alert.InternalError}, err
-		}
-	}
-
 	// Now, encrypted packets can be handled
 	if err := conn.HandleQueuedPackets(ctx); err != nil {
 		return 0, &alert.Alert{Level: alert.Fatal, Description: alert.InternalError}, err
@@ -243,7 +236,7 @@ func flight4Parse(
 			}
 		}
 
-		return Flight6, nil, nil
+		return saveSessionAndFinish(state, cfg)
 	}
 
 	switch cfg.ClientAuth {
@@ -268,6 +261,23 @@ func flight4Parse(
 	if cfg.VerifyConnection != nil {
 		if err := cfg.VerifyConnection(state); err != nil {
 			return 0, &alert.Alert{Level: alert.Fatal, Description: alert.BadCertificate}, err
+		}
+	}
+
+	return saveSessionAndFinish(state, cfg)
+}
+
+// saveSessionAndFinish stores the session for later resumption. This is the
+// last step of flight4Parse: a session becomes resumable only once the client's
+// Finished has been verified and the client-authentication policy is
+// satisfied. Stored any earlier, a client that stops before Finished (and
+// never presents a certificate) could resume the half-made session on a new
+// connection, where client authentication is not repeated.
+func saveSessionAndFinish(state *dtlsstate.State12, cfg *dtlsconfig.HandshakeConfig) (Flight, *alert.Alert, error) {
+	if len(state.SessionID) > 0 {
+		cfg.Log.Tracef("[handshake] save new session: %x", state.SessionID)
+		if err := cfg.SetSession(state.SessionID, state.SessionID, state.MasterSecret); err != nil {
+			return 0, &alert.Alert{Level: alert.Fatal, Description: alert.InternalError}, err
 		}
 	}
 
